@@ -80,6 +80,14 @@ def decideWith (t : Thresholds) (p : Path) (reOK : Bool) : Submitted → Outcome
 
 def decide' : Path → Bool → Submitted → Outcome := decideWith current
 
+/-- an upload may hold more than one key (several lines, several PEM blocks, several form values): the
+path tests the strength of the key it reads (`validated`) and hands bytes to a signer, which certifies
+the key *it* reads (`signed`).  Result: the key that ends up in a certificate, if any. -/
+def certifiedWith (t : Thresholds) (p : Path) (reOK : Bool) (validated signed : Submitted) : Option KeyDesc :=
+  match decideWith t p reOK validated, signed with
+  | .issue, .key k => some k
+  | _, _ => none
+
 /-- what the table theorem demands of every issuing path -/
 def pathOK (f : PathFact) : Bool :=
   (f.val == .direct || f.val == .helper) && f.precedes && decide (400 ≤ f.refusal) && decide (f.refusal < 500)
